@@ -16,13 +16,23 @@ CHECK = {
     "harness": ["actor/zz_verif_rd.go", "actor/zz_verif_c43.go", "internal/commands/zz_verif_rd.go"],
     "entries": [
         {"fn": P + "vC43_producer", "replay": "model-only", "opts": {"feasibility": True, "unwind": 8}},
-        {"fn": P + "vC43_consumer", "replay": "model-only", "cases_quick": {"kind": [0, 1, 2, 3, 4], "bufLen": [0, 1, 2], "spareCap": [1], "seqBits": [16]},
-         "cases_thorough": {"kind": [0, 1, 2, 3, 4], "bufLen": [0, 1, 2, 3], "spareCap": [0, 1], "seqBits": [61]},
+        {"fn": P + "vC43_consumer", "replay": "model-only", "cases_quick": {"kind": [0, 1, 2, 3, 4], "bufLen": [0, 1, 2, 3], "spareCap": [1], "seqBits": [61]},
+         "cases_thorough": {"kind": [0, 1, 2, 3, 4], "bufLen": [0, 1, 2, 3, 4], "spareCap": [0, 1], "seqBits": [61]},
          "cover_optional": ("demand-granted", "buffered", "buffer-full")},
     ],
     "opts": {"unwind": 8, "substitute": SUB, "feasibility": False, "batch_fresh": True, "reach_fresh": True, "equalfold_ascii": True},
     "stop": [k for k in SUB.keys() if k.startswith("(*" + P)],
     "timeout_ms": {"quick": 400000, "thorough": 1800000},
-    "explanation": "TODO",
-    "bounds": {},
+    "explanation": "One handler step from an arbitrary state, volatile mode (no durable queue). "
+                   "vC43_producer: the real (*producerController).Receive (handleRegisterConsumer, handleRequest, handleAck, handleProduced, handleStoredAck, handleTick, handleTerminated, fromRegisteredConsumer, advanceConfirmed, sendConfirmation, resendUnconfirmed, allowNextRequest, sendRequestNext, startStore, completeStore, replyStored, startAccept, completeAccept, emitSequenced, terminate and the protocol constructors) runs for one arbitrary message "
+                   "(any of the 7 kinds, any sender among registered consumer controller / producer / stranger, current or stale session, nonce, token, any int64 confirmation and demand values the commands' validate() accepts) from an arbitrary state with 0 <= confirmedSeq <= currentSeq, unconfirmed = the 0..3 contiguous sequences (confirmedSeq, currentSeq], any demandUpTo, handshake Idle / Credit / StoredAck, registered or not. "
+                   "Asserted at the moment of every emission (the controller's tell helper is substituted by the checker): seq <= demandUpTo, 1 <= seq <= currentSeq, destination = the registered consumer controller. After the step: demandUpTo changed only to the RequestUpToSeq of a Request authenticated for the current registration/session/nonce with confirmed <= currentSeq and upTo in [confirmed, confirmed+MaxReliableFlowControlWindow], or was reset to currentSeq by a (de)registration; "
+                   "credit (RequestNext) is opened only while currentSeq < demandUpTo; the representation invariant is preserved; confirmedSeq follows authenticated confirmations only. "
+                   "vC43_consumer: the real (*consumerController).Receive (handleRegistrationAck, handleSequencedMessage, handleConfirmed, handleTick, handleTerminated, register, deliver/deliverFrame, bufferMessage, drain, assemble, scanChunkRun, purgeBuffer, gapOpen, chunkRunComplete, refreshRunLast, batchConfirmation, sendRequest, sendGapRequest, solicitGapRequest, sendAck, failWedgedChunkRun) runs for one arbitrary message (whole or chunked SequencedMessage with any sequence and flags, RegistrationAck, Confirmed, tick, Terminated; any sender) "
+                   "from an arbitrary state satisfying I_c (expectedSeq = confirmedSeq+1, requestUpToSeq <= confirmedSeq+window, buffer strictly ascending within [expectedSeq, requestUpToSeq], len(buffer) <= window; window 1..4, buffer entries whole or chunk with any flags, in-flight delivery or not). Asserted: len(buffer) <= window, I_c preserved, every Request grants exactly confirmedSeq+window and carries the current watermark. "
+                   "Together: the producer never emits beyond the highest sequence granted by an authenticated Request, a grant is always confirmedSeq+window, and whatever arrives the consumer keeps at most window messages, all within its grant. "
+                   "Substituted (environment): the controllers' tell helpers (recorders carrying the emission-time assertions), (*ReceiveContext).Shutdown/Watch/UnWatch, (*actorSystem).getRemoting (identity serializer on byte frames), (*actorSystem).resolveReliableCompanion (arbitrary outcome), context.WithTimeout, slices.overlaps (unsafe pointer arithmetic inside slices.Insert; the inserted value is always fresh). PIDs carry one-letter path strings; PID.Equals / Path.Equals run for real (strings.EqualFold by the ASCII model).",
+    "bounds": {"producer": "unconfirmed 0..3, confirmedSeq < 2^62, demand/confirmation values any int64", "consumer quick": "window 1..4, buffer 0..3 (spare capacity), confirmedSeq < 2^61, incoming seq any int64",
+               "consumer thorough": "buffer 0..4, with and without spare slice capacity", "payloads": "1 byte", "durable queue, chunked emission on the producer side": "not encoded (queue == nil, maxChunkBytes == 0)"},
+    "assumptions": ["strings.EqualFold modelled for ASCII strings only", "strings.TrimSpace of a symbolic string trims ASCII white space only", "the consumer endpoint's window is the one validated by PreStart (1..MaxReliableFlowControlWindow); 1..4 explored"],
 }
